@@ -20,3 +20,20 @@ Print Assumptions C10_connect_session.
 Theorem C10_stop_session : Props.C10_stop_session.
 Proof. exact ProofsSession.stop_session. Qed.
 Print Assumptions C10_stop_session.
+
+From Proto Require PropsHist ProofsHist.
+
+(* ROUND TRIP: a persistent session survives the end of its connection (stop keeps it, removes its subscriptions from the tree) and every later accepted CONNECT with that identifier and CleanSession=0 is answered session-present=1 and re-installs exactly the stored filters with their stored QoS; the open QoS 2 exchanges are kept *)
+Theorem C10_resume_roundtrip : Proto.PropsHist.C10_resume_roundtrip.
+Proof. exact Proto.ProofsHist.resume_roundtrip. Qed.
+Print Assumptions C10_resume_roundtrip.
+
+(* a clean session is gone after its connection: a later CleanSession=0 CONNECT gets session-present=0, an empty session and no subscription *)
+Theorem C10_clean_discards : Proto.PropsHist.C10_clean_discards.
+Proof. exact Proto.ProofsHist.clean_discards. Qed.
+Print Assumptions C10_clean_discards.
+
+(* ... also with any number of events of other clients in between *)
+Theorem C10_resume_after_others : Proto.PropsHist.C10_resume_after_others.
+Proof. exact Proto.ProofsHist.resume_after_others. Qed.
+Print Assumptions C10_resume_after_others.
